@@ -225,7 +225,7 @@ def L_CELLS():
 prop("C01", [sel("rawbounds"), sel("encaps"), sel("witness", fn=r"^(W1|W2|W3|W4|W6|W7|W9|<rule>|<witness>)"), sel("zero", fn=r"^(TooDee|DrainCol|DropGuard| as Drop)"), sel("zero", fn=r"^TooDee"), sel("shape"), sel("deleg", fn=r"TooDee::(push|pop)"), sel("cursor", fn=r"^Col( |:|$)|<rule>"), sel("sortshape"), sel("sortkey"), sel("deleg"), sel("copyshape"), sel("flipshape"), sel("fillshape"), sel("lockstep"), sel("noshift"), sel("guard", fn=r"^(TooDee( as |::)|TooDeeOpsMut::|CopyOps::|SortOps::|TranslateOps::)"), sel_dyn(A_OWNED, exclude=NOT_VIEW)],
      "Shape invariant of the owned array, structural clauses: (R-ENCAPS) the three fields are private to module toodee, no exported signature / impl hands out `&mut Vec`, so only the enumerated shape writers can change (len, num_rows, num_cols) - backed by compile_fail witnesses with compiling twins (assigning a field, building the struct or a cursor from parts, AsMut<Vec>, observing the array while a drain / mutable cursor is alive must not type-check); (R-ZERO) num_rows==0 <=> num_cols==0 in every abstract state at every TooDee construction site and at every return of a dimension writer; (R-UNWIND/R-LEAK/R-LEAK-DRAIN/R-HIDE) at every point where control can leave a writer (panic in caller code or a rejected call, leak of the returned drain, return) the triple is untouched, all-zero or in product form; (R-DELEG) push/pop delegate to insert/remove with the dimension as index; (R-RAWBOUNDS, a necessary condition of the cells clause) the raw block moves of insert/remove stay inside the buffer and consecutive moves that shift cells the same way proceed in the only order that does not read already-overwritten cells (back to front when shifting right, front to back when shifting left); (R-CURSOR, Col) the column drain steps and counts through an embedded Col cursor, whose conformance to the ideal strided cursor is what its destructor's compaction relies on.",
      declined=["that the length written by insert_row/insert_col/remove_row on the success path equals the new product (loop/pointer arithmetic, DESIGN 2.4)", "cells equal those of a rows-of-cells model (runtime values) beyond the move-order clause"])
-prop("C02", [sel("layout", fn=r"(Index|IndexMut|::col$|::col_mut$|get_unchecked|::view|::view_mut|from_toodee|TooDeeView(Mut)?::new|<rule>)"), sel("shape", rules=["R-UNWIND", "R-LEAK", "R-LEAK-DRAIN", "R-STALE"]), sel("zero", fn=r"^(TooDee|DrainCol|DropGuard)"), sel("guard", fn=r"(Index|IndexMut|::col$|::col_mut$| as TooDeeOps(Mut)?::col|get_col_params)"), sel("guard", rules=["R-ARITH"], fn=COLCUR), sel("units", fn=r"(Index|::col|get_unchecked|get_col_params|Col as|ColMut as)"), sel("units", fn=VIEWS)],
+prop("C02", [sel("layout", fn=r"(Index|IndexMut|::col$|::col_mut$|get_unchecked|::view|::view_mut|from_toodee|TooDeeView(Mut)?::new|<rule>)"), sel("shape", rules=["R-UNWIND", "R-LEAK", "R-LEAK-DRAIN", "R-STALE"]), sel("zero", fn=r"^(TooDee|DrainCol|DropGuard)"), sel("guard", fn=r"(Index|IndexMut|::col$|::col_mut$| as TooDeeOps(Mut)?::col|get_col_params)"), sel("guard", rules=["R-ARITH"], fn=COLCUR), sel("units", fn=r"(Index|::col|get_unchecked|get_col_params|Col as|ColMut as)"), sel("units", fn=VIEWS), sel("cursor", fn=r"^(Col|ColMut) as Index")],
      "Checked access, structural clauses: (R-GUARD) every caller index of Index/IndexMut (row and coordinate forms) and col()/col_mut() on the three receivers is compared strictly with the dimension of its own unit by a guard whose failing edge panics and whose surviving edge dominates every arithmetic use and unchecked access; (R-ARITH) Col/ColMut indexing forms idx*(1+skip) only with checked arithmetic and reaches the cell through a checked slice index (no wrap for huge indices with overflow checks off); (R-UNITS) rows are never compared/multiplied as columns. (R-LAYOUT) every unchecked access of the accessors (Index/IndexMut, col/col_mut, the four get_unchecked*) on the three receivers has, as a canonical polynomial after composing nested slices, the address row*S+col (or the row / column range forms) with S the object's own stride, and the matching lemma's hypotheses (row < R, col < C) are path facts - hence all accessors denote one and the same cell; the view constructors hand every view the slice, dimensions and stride these formulas assume (R-LAYOUT literals), and - because every accessor is an unchecked access justified by the shape invariant - the invariant's own exit-point rules (R-UNWIND, R-LEAK, R-LEAK-DRAIN, R-STALE, R-ZERO of C01) are part of this check as its premise.",
      declined=["the pen-and-paper lemmas L-POS/L-ROW/L-COL* themselves (trusted base)"])
 prop("C03", [sel("guard", fn=r"(::view$|::view_mut$|from_toodee|calculate_view_dimensions)"), sel("layout", fn=r"(::view|::view_mut|from_toodee|TooDeeView(Mut)?::new|^TooDeeView(Mut)? as |<rule>)"), sel("zero", fn=VIEWS), sel("units", fn=VIEWS), sel("encaps", fn=r"^TooDeeView")],
@@ -288,6 +288,7 @@ for _pid in ("C01", "C04", "C10", "C13", "C14", "C15", "C16", "C17"):
 PROPS["C01"]["explanation"] += " The sentence 'the cells equal those of a rows-of-cells model driven by the same history' covers the in-place algorithms: the structural clauses of C13-C17 (R-SORTSHAPE, R-SORTKEY, R-DELEG, R-COPYSHAPE, R-FLIPSHAPE, R-FILL, R-LOCKSTEP, R-NOSHIFT, R-GUARD of the owned array and the provided methods) are selected here too."
 for _pid in ("C08", "C09"):
     PROPS[_pid]["explanation"] += " Overrides: every method of the cursor's Iterator / DoubleEndedIterator / ExactSizeIterator impls is enumerated; `len` is decided like size_hint (the number of remaining items under the cursor invariant, division by zero included); any other override of a provided method must either step the cursor only through its own judged methods in the direction of its family (fold / for_each / count .. from the front, rfold / rfind .. from the back) or walk the slice with a recognised chunking idiom (chunks(stride) + leading cells, rchunks(stride) + trailing cells; chunks_exact / windows / a wrong step are violations)."
+PROPS["C02"]["explanation"] += " (R-CURSOR) Col / ColMut indexing returns, on every returning path, the element at offset idx*(1+skip) of the cursor's slice (path-wise abstract evaluation)."
 PROPS["C10"]["explanation"] += " Overrides of FlattenExact: count / len are decided against the denotation like size_hint; any further override belongs to the direction family of the trait that declares it (R-FLAT f2)."
 PROPS["C12"]["explanation"] += " The drain's own iterator and destructor are included (R-HIDE: every ptr::read of the drain happens while the buffer is hidden, whichever end is consumed first; R-DRAINSTEP; R-RESTORE)."
 for _pid in ("C05", "C07", "C11", "C12", "C01"):
